@@ -213,6 +213,42 @@ def run(ctx):
         finally:
             pyg.LOG_THROUGH = None
             tree.close()
+    # ---- an archive whose dangling link members point *through* a regular file (next to links that resolve): the archive, its
+    # sub-directories and the directory that holds it all still list
+    import zipfile
+    import stat as stat_
+    tree = pyg.Tree()
+    try:
+        tree.write("z/a.txt", b"a\n")
+        tree.write("z/b.txt", b"b\n")
+        with zipfile.ZipFile(os.fsdecode(tree.path("z/bundle.zip")), "w") as zf:
+            def member(name, data, link=False):
+                zi = zipfile.ZipInfo(name)
+                zi.external_attr = ((stat_.S_IFLNK | 0o777) if link else (stat_.S_IFREG | 0o644)) << 16
+                zf.writestr(zi, data)
+            member("docs/readme.txt", b"read me\n")
+            member("docs/notes.txt", b"notes\n")
+            member("good", b"docs/readme.txt", link=True)
+            member("stale.txt", b"docs/readme.txt/old.txt", link=True)
+            member("docs/also-stale", b"notes.txt/x/y", link=True)
+            member("later", b"good", link=True)
+        cfg = pyg.make_config(tree.root, pyg.FULL_HANDLERS, **{"handlers.dir.DirHandler|cachetime": "0", "handlers.ZIP.ZIPHandler|enabled": "true"})
+        for sel, needs in (("/z", [b"/z/a.txt", b"/z/b.txt", b"/z/bundle.zip"]), ("/z/bundle.zip", [b"/z/bundle.zip/docs", b"/z/bundle.zip/good"]),
+                           ("/z/bundle.zip/docs", [b"/z/bundle.zip/docs/readme.txt", b"/z/bundle.zip/docs/notes.txt"])):
+            for view, gplus in listing.VIEWS[:4]:
+                rows, r = listing.real_rows(view, gplus, cfg, sel)
+                res.evaluations += 1
+                res.nontrivial.add(("zip-link-through-file", sel, view))
+                import urllib.parse as _up
+                have = rows or b""
+                missing = [n for n in needs if n not in have and _up.quote(n.decode()).encode() not in have]
+                if rows is None or missing:
+                    res.violation("C12:listing-dies:zip-link-through-file", "a dangling link member whose target runs through a regular file takes listings down",
+                                  {"selector": sel, "view": view}, observed={"out": (r.out or b"")[:150], "exc": repr(r.exc), "missing": missing, "log": r.log[-2:]},
+                                  required="the listing of every other entry", replay={"faults": ["zip-link-through-file"], "view": view, "gplus": gplus, "handler": "full"})
+    finally:
+        tree.close()
+        pyg.reset_globals()
     # ---- histories: an entry that is unservable at one listing and servable at the next (its target appears outside the
     # directory, so the directory itself does not change), and the reverse; one server process throughout.  Each listing is
     # the listing of a twin directory that has been in that state from the start and was never listed before.
